@@ -532,8 +532,8 @@ class Engine:
         if isinstance(t, Ty.Tuple):
             return z3.BoolVal(len(t.ts) > 0)
         if isinstance(t, (Ty.Map, Ty.Set)):
-            k = z3.Int("tk!")
-            return z3.Exists([k], v.c[0][k])
+            # non-empty: quantifier-free (extensional) so that path pruning can use it
+            return v.c[0] != z3.K(Ty.IntS, z3.BoolVal(False))
         raise Unsupported(f"truth of {t}")
 
     def concrete_bool(self, st, cond):
@@ -894,6 +894,24 @@ class Engine:
                 if isinstance(a.t, Ty.Opt) or isinstance(b.t, Ty.Opt):
                     tt = a.t if isinstance(a.t, Ty.Opt) else b.t
                     a, b = self.coerce(a, tt), self.coerce(b, tt)
+                if isinstance(a.t, Ty.Tuple) and isinstance(b.t, Ty.Tuple) and len(a.t.ts) == len(b.t.ts) and a.t.ts and repr(a.t) != repr(b.t):
+                    # tuples of the same arity whose components differ only by None / Optional: unify per component
+                    pa, pb = Ty.split(a.t, a.c), Ty.split(b.t, b.c)
+                    ua, ub = [], []
+                    for x, y in zip(pa, pb):
+                        if isinstance(x.t, Ty._None) and not isinstance(y.t, Ty._None):
+                            tt = y.t if isinstance(y.t, Ty.Opt) else Ty.Opt(y.t)
+                        elif isinstance(y.t, Ty._None) and not isinstance(x.t, Ty._None):
+                            tt = x.t if isinstance(x.t, Ty.Opt) else Ty.Opt(x.t)
+                        elif isinstance(x.t, Ty.Opt) or isinstance(y.t, Ty.Opt):
+                            tt = x.t if isinstance(x.t, Ty.Opt) else y.t
+                        else:
+                            tt = x.t
+                        ua.append(self.coerce(x, tt))
+                        ub.append(self.coerce(y, tt))
+                    a, b = Ty.mk_tuple(ua), Ty.mk_tuple(ub)
+                if len(a.c) != len(b.c):
+                    raise Unsupported(f"conditional between values of different shape ({a.t} / {b.t})")
                 return Ty.ite(c, a, b)
             raise Unsupported("conditional on containers in spec")
         raise NeedSplit(c)
